@@ -1,6 +1,6 @@
 (* Props/C10.v - Every initialised session is closed exactly once; every connection is released. *)
 From Coq Require Import List Arith NArith Lia Bool.
-From MM Require Import Lib.Bytes Model.Conn Proofs.ConnInv Proofs.C10Proofs Gen.FactsConn.
+From MM Require Import Lib.Bytes Model.Conn Proofs.ConnInv Proofs.C10Proofs Gen.FactsConn Proofs.FuelProofs.
 Import ListNotations.
 Open Scope N_scope.
 
@@ -64,3 +64,9 @@ Example c10_example_refused :
   let r := session B BATCH 50 [EvHandshake true false; EvDecide AForbidden] in
   ctl_ (fst r) = Done /\ closes (fst r) = 0%nat /\ inited (fst r) = false /\ releases (snd r) = 2%nat.
 Proof. vm_compute. repeat split; reflexivity. Qed.
+
+(* the model's fuel: running a plan with the amount FUEL computes, or with ANY larger amount, gives the same state and the
+   same outputs - `go` is the fuel-independent semantics of the machine, `Stuck` is never the result of running out of fuel
+   (Proofs/FuelProofs.v: a potential over plan length, queued commands weighted by their cursors, and the frame) *)
+Theorem c10_fuel_suffices : forall B BATCH s k f n, (FUEL s k <= n)%nat -> run B BATCH n s k f = go B BATCH s k f.
+Proof. exact go_stable. Qed.
